@@ -45,20 +45,15 @@ var Driver = core.Driver{ID: "C05", Level: "exploration", Run: run, Replay: repl
 
 var walkers = []string{"resolve", "length", "xref", "pages", "outline", "nametree", "filters"}
 
-// holdConfigs are the design models that must hold: liveness (Termination)
-// for every walker at N = 2, the two depth-cap models, the Pipe models.  The
-// safety properties at N = 3 are checked by the generator runs (Gen_Walk is
-// the same exhaustive run with the invariants NoOverflow and WorkBounded);
-// where the quick tier does not generate N = 3 cases it runs the _t model.
+// holdConfigs are the design models that must hold: Termination (liveness)
+// and the safety invariants for every walker at N = 2 (one run: the walker is
+// picked in the initial state), for the small walkers at N = 3, the two
+// depth-cap models, the Pipe models.  The safety properties at N = 3 of all
+// walkers are checked by the thorough generator run (Gen_Walk is the same
+// exhaustive run with the invariants NoOverflow and WorkBounded).
 func holdConfigs(ctx *core.Ctx) (pipe []string, walk []string) {
 	pipe = []string{"MC_Pipe_close.cfg", "MC_Pipe_close_srcerr.cfg", "MC_Pipe_fwd.cfg"}
-	walk = []string{"MC_Walk_outline_depth.cfg", "MC_Walk_nametree_depth.cfg"}
-	for _, w := range walkers {
-		walk = append(walk, "MC_Walk_"+w+"_q.cfg")
-	}
-	if !ctx.Thorough() {
-		walk = append(walk, "MC_Walk_xref_t.cfg")
-	}
+	walk = []string{"MC_Walk_q.cfg", "MC_Walk_small3.cfg", "MC_Walk_depth_outline.cfg", "MC_Walk_depth_nametree.cfg"}
 	return
 }
 
@@ -84,11 +79,7 @@ func runModels(ctx *core.Ctx) error {
 		jobs = append(jobs, job{"MC_Pipe", c, 1})
 	}
 	for _, c := range walk {
-		w := 2
-		if strings.HasSuffix(c, "_t.cfg") {
-			w = 4
-		}
-		jobs = append(jobs, job{"MC_Walk", c, w})
+		jobs = append(jobs, job{"MC_Walk", c, 3})
 	}
 	var mu sync.Mutex
 	var first error
@@ -150,15 +141,15 @@ func toStrs(v any) ([]string, bool) {
 	return out, true
 }
 
-// genWirings runs Gen_Walk for one walker and size and parses the cases.
-func genWirings(ctx *core.Ctx, walker string, n int) ([]*Wiring, error) {
-	res, err := ctx.TLC(core.TLCOpts{Dir: "robust", Module: "Gen_Walk", Cfg: fmt.Sprintf("Gen_Walk_%s_%d.cfg", walker, n),
-		Mode: "exhaustive", Workers: ctx.Pick(3, 6), Timeout: ctx.Dur(4, 12), XmxMB: 8000, Constants: fmt.Sprintf("Walker=%s N=%d (generator)", walker, n)})
+// genWirings runs one Gen_Walk configuration and parses the cases.
+func genWirings(ctx *core.Ctx, cfg string, n int) ([]*Wiring, error) {
+	res, err := ctx.TLC(core.TLCOpts{Dir: "robust", Module: "Gen_Walk", Cfg: cfg,
+		Mode: "exhaustive", Workers: ctx.Pick(4, 10), Timeout: ctx.Dur(4, 14), XmxMB: 10000, Constants: cfg + " (generator = exhaustive run)"})
 	if err != nil {
 		return nil, err
 	}
 	if !res.OK() {
-		return nil, core.Infra("Gen_Walk %s N=%d does not hold: %q\n%s", walker, n, res.Invariant, tailStr(res.Output, 1500))
+		return nil, core.Infra("Gen_Walk %s does not hold: %q\n%s", cfg, res.Invariant, tailStr(res.Output, 1500))
 	}
 	var out []*Wiring
 	for _, line := range caseLine.FindAllString(res.Output, -1) {
@@ -186,15 +177,14 @@ func genWirings(ctx *core.Ctx, walker string, n int) ([]*Wiring, error) {
 		w.Out, ok4 = toStrs(t[8])
 		w.Work, _ = t[9].(int)
 		w.Bound, _ = t[10].(int)
-		if !(ok1 && ok2 && ok3 && ok4) || w.Walker != walker || w.N != n || len(w.Kind) != n {
+		if !(ok1 && ok2 && ok3 && ok4) || w.Walker == "" || w.N != n || len(w.Kind) != n {
 			return nil, core.Infra("Gen_Walk: malformed case %q", txt)
 		}
 		out = append(out, w)
 	}
 	if len(out) == 0 {
-		return nil, core.Infra("Gen_Walk %s N=%d produced no cases", walker, n)
+		return nil, core.Infra("Gen_Walk %s produced no cases", cfg)
 	}
-	sort.Slice(out, func(i, j int) bool { return out[i].key() < out[j].key() })
 	return out, nil
 }
 
@@ -228,7 +218,7 @@ func run(ctx *core.Ctx) error {
 		"pipe scenario rows per site, and for the exploration distinct (call, outcome class, mutated slot) triples"
 	ctx.Ev.Assume("TLC; Go's runtime accounting (runtime/metrics heap allocs, getrusage CPU time, runtime.NumGoroutine); the envelope constants are calibrated, not derived")
 	ctx.Ev.Assume("beyond the enumerated wirings (N <= 3, <= 3 slots per object) and the generated chains/ladders, totality over arbitrary bytes is explored by seeded mutation, not decided")
-	ctx.Ev.Assume("a worker process has a 64 MiB Go stack limit (256 documented nesting levels x 256 KiB); a report is confirmed with Go's default limit")
+	ctx.Ev.Assume("a worker process has a 16 MiB Go stack limit (256 documented nesting levels x 64 KiB); a report is confirmed with Go's default limit")
 
 	if err := runModels(ctx); err != nil {
 		return err
@@ -238,35 +228,25 @@ func run(ctx *core.Ctx) error {
 
 	// ---- P-A: wirings of the model ----
 	type gen struct {
-		walker string
-		n      int
+		cfg string
+		n   int
 	}
-	var gens []gen
-	for _, w := range walkers {
-		gens = append(gens, gen{w, 2})
-	}
+	gens := []gen{{"Gen_Walk_2.cfg", 2}}
 	if ctx.Thorough() {
-		for _, w := range walkers {
-			gens = append(gens, gen{w, 3})
-		}
+		gens = append(gens, gen{"Gen_Walk_3.cfg", 3})
 	} else {
-		for _, w := range []string{"resolve", "filters"} {
-			gens = append(gens, gen{w, 3})
-		}
+		gens = append(gens, gen{"Gen_Walk_3small.cfg", 3})
 	}
 	var wirings []*Wiring
 	{
 		var mu sync.Mutex
 		var first error
 		var wg sync.WaitGroup
-		sem := make(chan struct{}, ctx.Pick(4, 3))
 		for _, g := range gens {
 			wg.Add(1)
-			sem <- struct{}{}
 			go func(g gen) {
 				defer wg.Done()
-				defer func() { <-sem }()
-				ws, err := genWirings(ctx, g.walker, g.n)
+				ws, err := genWirings(ctx, g.cfg, g.n)
 				mu.Lock()
 				defer mu.Unlock()
 				if err != nil {
